@@ -64,6 +64,7 @@ type Scenario struct {
 	Members     []Member            `json:"members"`
 	NoRecovery  bool                `json:"norecovery"`
 	MaxAgeS     int                 `json:"maxages"`
+	KillAt      int                 `json:"killat"`
 	MaxSubmitMs int                 `json:"maxsubmitms"`
 
 	curTr, curK int
